@@ -50,7 +50,7 @@ void set_recorded_schedule(CaseBox* cb, const Outcome& o) {
   } else if (cb->engine == "c14a") {
     if (o.extra.t == J::ARR) {
       cb->c14a.steps.clear();
-      for (const J& q : o.extra.a) { Step s; s.q = query_from_json(q); s.check = q.getb("check", true); cb->c14a.steps.push_back(s); }
+      for (const J& q : o.extra.a) { Step s; s.q = query_from_json(q); s.check = q.getb("check", true); s.zone = static_cast<int>(q.geti("zone")); cb->c14a.steps.push_back(s); }
       cb->c14a.explicit_steps = true;
     }
   } else if (cb->engine == "c12") {
